@@ -1,6 +1,7 @@
 package govc
 
 import (
+	"context"
 	"fmt"
 	"go/types"
 	"os"
@@ -30,6 +31,9 @@ type OblResult struct {
 	failed  *Obligation
 	query   string
 	queryAlt string
+	q        *Query
+	failedPiece *Term
+	model    string
 }
 
 // FuncReport is the outcome of verifying one function case.
@@ -108,6 +112,7 @@ func (x *Exec) generate() {
 		x.VC.Warnf("%s: no return reachable", x.TopName)
 		return
 	}
+	x.VC.CurTag = nil
 	r := x.Oblige("reach", "return reachable", "", fn.Pos(), rg, True, nil)
 	if r != nil {
 		r.MustSat = true
@@ -122,14 +127,28 @@ func (x *Exec) generate() {
 			}
 		}
 	}
+	// postconditions are proved at every return point separately (states are not merged in the goal)
 	for _, c := range x.Case.Clauses {
 		if c.Kind != "ensures" {
 			continue
 		}
-		g := penv.EvalBool(c.Expr)
-		x.reportSpecErrors(penv, x.TopName, c)
-		x.Oblige("post", clauseLabel(c), fmt.Sprint(c.Line), fn.Pos(), rg, g, c.Props)
+		for _, rp := range x.topRets {
+			x.VC.CurTag = rp.node
+			renv := x.topSpecEnv(rp.st, rp.guard, false)
+			for i, nm := range resultNames(fn.Signature) {
+				if i < len(rp.vals) {
+					renv.vars[nm] = rp.vals[i]
+					if i == 0 {
+						renv.vars["result"] = rp.vals[0]
+					}
+				}
+			}
+			g := renv.EvalBool(c.Expr)
+			x.reportSpecErrors(renv, x.TopName, c)
+			x.Oblige("post", clauseLabel(c), fmt.Sprint(c.Line), fn.Pos(), rp.guard, g, c.Props)
+		}
 	}
+	x.VC.CurTag = nil
 	x.frameObligations(out, rg, penv)
 	x.ghostExit(out, rg)
 }
@@ -225,12 +244,11 @@ type Options struct {
 
 // SolveAll discharges the obligations of the given executions in parallel.
 func SolveAll(xs []*Exec, opt Options) []*FuncReport {
-	type job struct {
+	var reports []*FuncReport
+	var jobs []struct {
 		o   *Obligation
 		res *OblResult
 	}
-	var reports []*FuncReport
-	var jobs []job
 	for _, x := range xs {
 		fr := &FuncReport{Name: x.TopName, Props: x.Props, Warnings: x.VC.Warn}
 		if x.Case != nil {
@@ -263,127 +281,37 @@ func SolveAll(xs []*Exec, opt Options) []*FuncReport {
 				fr.Results = append(fr.Results, r)
 			}
 			r.obls = append(r.obls, o)
-			jobs = append(jobs, job{o, r})
+			jobs = append(jobs, struct {
+				o   *Obligation
+				res *OblResult
+			}{o, r})
 		}
 		reports = append(reports, fr)
 	}
+	runJobs(jobs2(jobs), opt)
+	return reports
+}
+
+type solveJob struct {
+	o   *Obligation
+	res *OblResult
+}
+
+func runJobs(jobs []solveJob, opt Options) {
 	if opt.Workers <= 0 {
 		opt.Workers = 8
 	}
 	var mu sync.Mutex
 	var wg sync.WaitGroup
-	ch := make(chan job)
+	ch := make(chan solveJob)
 	for w := 0; w < opt.Workers; w++ {
 		wg.Add(1)
 		go func() {
 			defer wg.Done()
 			for j := range ch {
-				o := j.o
-				var sr SolverResult
-				trivial := false
-				if !o.MustSat && (o.Goal == True || o.Guard == False) {
-					trivial = true
-				}
-				var q *Query
-				if trivial {
-					sr = SolverResult{Status: "unsat", Solver: "trivial"}
-				} else if o.MustSat {
-					q = o.vc.BuildQuery(o, nil)
-					sr = SolveQ(q, opt.Timeout)
-				} else {
-					// split the goal into conjuncts; scalar pieces first try a light query
-					var total int64
-					sr = SolverResult{Status: "unsat", Solver: "split"}
-					for _, piece := range SplitGoal(o.Goal, 64) {
-						if piece == True {
-							continue
-						}
-						var pr SolverResult
-						solved := false
-						scalar := o.vc.ScalarGoal(o, piece)
-						type attempt struct {
-							light bool
-							depth int
-							frac  int // timeout divisor
-						}
-						var plan []attempt
-						if scalar {
-							plan = []attempt{{true, 2, 4}, {true, 0, 2}, {false, 0, 1}}
-						} else {
-							plan = []attempt{{false, 2, 4}, {false, 4, 2}, {false, 0, 1}}
-						}
-						for _, at := range plan {
-							tb := time.Now()
-							q = o.vc.BuildQueryRel(o, piece, nil, at.light, at.depth)
-							buildMs := time.Since(tb).Milliseconds()
-							pr = SolveQ(q, opt.Timeout/time.Duration(at.frac))
-							if os.Getenv("GOVC_TRACE") != "" {
-								fmt.Fprintf(os.Stderr, "TIME build=%dms solve=%dms light=%v %s alt=%v why=%s\n", buildMs, pr.Ms, at.light, pr.Solver, q.Alt != nil, q.AltWhy)
-							}
-							total += pr.Ms
-							if pr.Status == "unsat" {
-								solved = true
-								break
-							}
-							if d := os.Getenv("GOVC_LIGHTDUMP"); d != "" {
-								os.MkdirAll(d, 0o755)
-								os.WriteFile(fmt.Sprintf("%s/%s.l%v.d%d.smt2", d, sanitize(o.ID), at.light, at.depth), []byte(q.Text+"(check-sat)\n"), 0o644)
-							}
-						}
-						_ = solved
-						if os.Getenv("GOVC_TRACE") != "" {
-							txt := TermText(piece)
-							if len(txt) > 300 {
-								txt = txt[:300]
-							}
-							fmt.Fprintf(os.Stderr, "TRACE %s piece %s %dms asserts=%d inst=%d :: %s\n", o.ID, pr.Status, pr.Ms, q.NAsserts, q.NInst, txt)
-						}
-						if pr.Status != "unsat" {
-							sr = pr
-							break
-						}
-						sr.Solver = pr.Solver
-					}
-					sr.Ms = total
-				}
+				sr, q := solveOne(j.o, opt)
 				mu.Lock()
-				r := j.res
-				r.Queries++
-				r.Ms += sr.Ms
-				want := "unsat"
-				if o.MustSat {
-					want = "sat"
-				}
-				if sr.Status == want {
-					if r.Solver == "" || r.Solver == "trivial" {
-						r.Solver = sr.Solver
-					}
-				} else {
-					bad := "unknown"
-					if sr.Status == "sat" || sr.Status == "unsat" {
-						bad = "failed"
-					}
-					if o.MustSat && bad == "unknown" {
-						// vacuity/reachability could not be decided within the budget: not a failure
-						if r.Detail == "" {
-							r.Detail = "undecided"
-						}
-						mu.Unlock()
-						continue
-					}
-					if r.Status == "discharged" || (r.Status == "unknown" && bad == "failed") {
-						r.Status = bad
-						r.failed = o
-						r.Solver = sr.Solver
-						r.Detail = sr.Status
-						if q != nil {
-							r.query = q.Text
-							if q.Alt != nil {
-								r.queryAlt = q.Alt.Text
-							}
-						}
-					}
-				}
+				applyResult(j.res, j.o, sr, q)
 				mu.Unlock()
 			}
 		}()
@@ -393,7 +321,156 @@ func SolveAll(xs []*Exec, opt Options) []*FuncReport {
 	}
 	close(ch)
 	wg.Wait()
-	return reports
+}
+
+// ResolveAgain re-runs the obligations of undecided results with other options (longer timeout).
+func ResolveAgain(rs []*OblResult, opt Options) {
+	var jobs []solveJob
+	for _, r := range rs {
+		r.Status = "discharged"
+		r.Detail = ""
+		r.failed = nil
+		r.Queries = 0
+		for _, o := range r.obls {
+			jobs = append(jobs, solveJob{o, r})
+		}
+	}
+	runJobs(jobs, opt)
+}
+
+func solveOne(o *Obligation, opt Options) (SolverResult, *Query) {
+	var sr SolverResult
+	trivial := false
+	if !o.MustSat && (o.Goal == True || o.Guard == False) {
+		trivial = true
+	}
+	var q *Query
+	if trivial {
+		return SolverResult{Status: "unsat", Solver: "trivial"}, nil
+	}
+	if o.MustSat {
+		q = o.vc.BuildQuery(o, nil)
+		return SolveQ(q, opt.Timeout), q
+	}
+	// split the goal into conjuncts; each piece: premise-selected attempts first, the full query last
+	var total int64
+	sr = SolverResult{Status: "unsat", Solver: "split"}
+	for _, piece := range SplitGoal(o.Goal, 64) {
+		if piece == True {
+			continue
+		}
+		var pr SolverResult
+		scalar := o.vc.ScalarGoal(o, piece)
+		type attempt struct {
+			light bool
+			depth int
+			frac  int // timeout divisor
+		}
+		var plan []attempt
+		if scalar {
+			plan = []attempt{{true, 2, 4}, {true, 102, 3}, {true, 0, 2}, {false, 0, 1}}
+		} else {
+			plan = []attempt{{false, 2, 4}, {false, 4, 3}, {false, 102, 3}, {false, 0, 1}}
+			if os.Getenv("GOVC_NOSINE") != "" {
+				plan = []attempt{{false, 0, 1}}
+			}
+		}
+		for _, at := range plan {
+			tb := time.Now()
+			q = o.vc.BuildQueryRel(o, piece, nil, at.light, at.depth)
+			buildMs := time.Since(tb).Milliseconds()
+			pr = SolveQ(q, opt.Timeout/time.Duration(at.frac))
+			if dbg := os.Getenv("GOVC_DEBUGOBL"); dbg != "" && strings.Contains(o.ID, dbg) {
+				// debugging aid: ask the (untrusted) int-blasting oracle whether this attempt is provable at all
+				f := newQueryFile(q.Text + "(check-sat)\n")
+				ctx, cancel := context.WithTimeout(context.Background(), 30*time.Second)
+				ost, _ := runSolver(ctx, solvers[guideSolver], f)
+				cancel()
+				txt := TermText(piece)
+				if len(txt) > 160 {
+					txt = txt[:160]
+				}
+				fmt.Fprintf(os.Stderr, "DEBUGOBL %s light=%v depth=%d asserts=%d inst=%d -> %s (%dms, %s); oracle says %s; file %s :: %s\n", o.ID, at.light, at.depth, q.NAsserts, q.NInst, pr.Status, pr.Ms, pr.Solver, ost, f, txt)
+			}
+			if os.Getenv("GOVC_TRACE") != "" {
+				fmt.Fprintf(os.Stderr, "TIME build=%dms solve=%dms light=%v %s alt=%v why=%s\n", buildMs, pr.Ms, at.light, pr.Solver, q.Alt != nil, q.AltWhy)
+			}
+			total += pr.Ms
+			if pr.Status == "unsat" {
+				break
+			}
+			if d := os.Getenv("GOVC_LIGHTDUMP"); d != "" {
+				os.MkdirAll(d, 0o755)
+				os.WriteFile(fmt.Sprintf("%s/%s.l%v.d%d.smt2", d, sanitize(o.ID), at.light, at.depth), []byte(q.Text+"(check-sat)\n"), 0o644)
+			}
+		}
+		if os.Getenv("GOVC_TRACE") != "" {
+			txt := TermText(piece)
+			if len(txt) > 300 {
+				txt = txt[:300]
+			}
+			fmt.Fprintf(os.Stderr, "TRACE %s piece %s %dms asserts=%d inst=%d scalar=%v :: %s\n", o.ID, pr.Status, pr.Ms, q.NAsserts, q.NInst, scalar, txt)
+		}
+		if pr.Status != "unsat" {
+			sr = pr
+			sr.failedPiece = piece
+			break
+		}
+		sr.Solver = pr.Solver
+	}
+	sr.Ms = total
+	return sr, q
+}
+
+func applyResult(r *OblResult, o *Obligation, sr SolverResult, q *Query) {
+	r.Queries++
+	r.Ms += sr.Ms
+	want := "unsat"
+	if o.MustSat {
+		want = "sat"
+	}
+	if sr.Status == want {
+		if r.Solver == "" || r.Solver == "trivial" {
+			r.Solver = sr.Solver
+		}
+		return
+	}
+	bad := "unknown"
+	if sr.Status == "sat" || sr.Status == "unsat" {
+		bad = "failed"
+	}
+	if o.MustSat && bad == "unknown" {
+		// vacuity/reachability could not be decided within the budget: not a failure
+		if r.Detail == "" {
+			r.Detail = "undecided"
+		}
+		return
+	}
+	if r.Status == "discharged" || (r.Status == "unknown" && bad == "failed") {
+		r.Status = bad
+		r.failed = o
+		r.failedPiece = sr.failedPiece
+		r.Solver = sr.Solver
+		r.Detail = sr.Status
+		if q != nil {
+			r.query = q.Text
+			r.q = q
+			if q.Alt != nil {
+				r.queryAlt = q.Alt.Text
+			}
+		}
+	}
+}
+
+func jobs2(js []struct {
+	o   *Obligation
+	res *OblResult
+}) []solveJob {
+	out := make([]solveJob, len(js))
+	for i, j := range js {
+		out[i] = solveJob{j.o, j.res}
+	}
+	return out
 }
 
 func shortFile(f string) string {
